@@ -219,7 +219,7 @@ func (e *Exec) callStatic(fr *frame, st *State, fn *ssa.Function, args, bindings
 			}
 		}
 	}
-	if con := e.W.Contracts[fn]; con != nil && !con.Inline && e.spec > 0 && con.Trusted {
+	if con := e.W.Contracts[fn]; con != nil && !con.Inline && e.spec > 0 && con.Trusted && !e.lemmaMode {
 		return e.applyContract(st, con, args, resType, pos)
 	}
 	inRepo := fn.Pkg != nil && strings.HasPrefix(fn.Pkg.Pkg.Path(), ModulePath) || fn.Pkg == nil && fn.Parent() != nil ||
@@ -465,7 +465,7 @@ func (e *Exec) applyContract(st *State, con *Contract, args []*smt.Term, resType
 
 func (e *Exec) curH() *hctx {
 	if len(e.hstack) == 0 {
-		unsupported("verif intrinsic outside a harness")
+		unsupported("contract-only verif intrinsic used outside a contract harness")
 	}
 	return e.hstack[len(e.hstack)-1]
 }
